@@ -10,10 +10,14 @@ PLAN = dict(
           "embeds a unique id (record, key, line number): any subset/order of the 15 known keys, repeated "
           "scalar keys, keys present in record i and absent in record i+1 (leak probes), unknown keys "
           "(PKGNAMEX, XPKGNAME, PKGNAME_, pkgname, ...), lines without '=', blank lines, space/tab padding, "
-          "values containing '=', lists of 0-5 items with repeated inner blanks, duplicate PKGNAME= lines; "
+          "values containing '=', lists of 0-5 items with repeated inner blanks (some valid items use a vocabulary word "
+          "as the whole pattern or as the category), duplicate PKGNAME= lines; "
           "each is read through a slice and through a 1-16 byte window reader and every record field is "
           "compared with the by-construction model. Fault cases carry exactly one fault (known key before "
-          "the first PKGNAME=, one bad ALL_DEPENDS item at every item position, bad PKG_LOCATION, invalid "
+          "the first PKGNAME=, one bad ALL_DEPENDS item at every item position - no ':', extra ':', bad pattern, "
+          "bad path, and a third of them built from vocabulary words (full, build, bootstrap, tool, test, depends, "
+          "run, pkg, DEPENDS, BUILD, ...) as an extra field in front of / between / behind a valid "
+          "'pattern:pkgpath', words only, or a word where the path belongs -, bad PKG_LOCATION, invalid "
           "UTF-8 in an ignored line) or a hard I/O error at the k-th refill of the reader for every k. "
           "Non-trivial = a fault-free document with >= 2 records, any document with a fault, or an I/O "
           "error inside the input; distinct = distinct document bytes (x fault position) by 64-bit fingerprint."),
